@@ -89,8 +89,9 @@ def run_groups(chk, pid, groups, key_of, hang_in_scope=True, completion_required
     bygroup = {}
     for r in results:
         bygroup.setdefault(r[0], []).append(r)
-    # A difference is attributed to the variant only if the reference itself is reproducible: re-run the reference of
-    # every group that shows a difference (schedule-dependent output is C04's subject, not this property's).
+    # A difference is attributed to a variant only if the reference reproduces itself in three more runs under perturbed
+    # schedules and the variant never reproduces the reference in three more runs (schedule-dependent output is C04's
+    # subject, not this property's).
     unstable = set()
     if confirm_baseline:
         todo = []
@@ -116,8 +117,13 @@ def run_groups(chk, pid, groups, key_of, hang_in_scope=True, completion_required
                     sig = output_sig(res, prefix, with_recon=with_recon) if (res.res and not res.res.get("api_error")
                                                                               and not res.timed_out) else None
                     enc.cleanup(prefix)
-                    if sig is not None and sig != first:
-                        stable = False
+                    # the reference must reproduce itself; a variant must never reproduce the reference (if it
+                    # sometimes does, the difference cannot be attributed to the variant)
+                    if sig is not None:
+                        if vi == 0 and sig != first:
+                            stable = False
+                        if vi != 0 and sig == rs[0][5]:
+                            stable = False
             return gi, stable
         for gi, stable in core.pmap(again, todo):
             if not stable:
